@@ -72,7 +72,7 @@ class Adapter(EnvAdapter):
         if tier == "quick":
             return [
                 # default size (Knapsack-v1): 50 items, budget 12.5, dense; probes every 3rd state (50 actions each)
-                _c("u50_b12p5_dense", "uniform", 50, 12.5, "dense", 4, probe_every=4,
+                _c("u50_b12p5_dense", "uniform", 50, 12.5, "dense", 4, probe_every=4, default_ctor=True,
                    policies=["masked", "greedy_light", "mostly_masked", "random"]),
                 _c("u10_b2p5_sparse", "uniform", 10, 2.5, "sparse", 10, policies=pol4),
                 _c("u10_b12p5_dense", "uniform", 10, 12.5, "dense", 4, policies=["masked", "mostly_masked"]),  # all fit: horizon
@@ -102,6 +102,9 @@ class Adapter(EnvAdapter):
                                       probe_every=(2 if n == 50 else 1)))
         for n, b, rew in ((10, 1.0, "dense"), (10, 1.0, "sparse"), (6, 1.5, "sparse"), (20, 2.0, "dense")):
             out.append(_c(f"j{n}_b{str(b).replace('.', 'p')}_{rew}", "jitter", n, b, rew, 40, policies=pol4))
+        for c in out:       # the registered default is built by the library's own no-argument constructor
+            if c["id"] == "u50_b12p5_dense":
+                c["default_ctor"] = True
         return out
 
     # ---- the real environment -------------------------------------------------------------
@@ -115,6 +118,10 @@ class Adapter(EnvAdapter):
         return Knapsack(generator=gen, reward_fn=DenseReward() if rew == "dense" else SparseReward())
 
     def make(self, cfg):
+        if cfg.get("default_ctor"):       # the documented defaults come from the library's own no-argument constructor
+            from jumanji.environments.packing.knapsack import Knapsack
+
+            return Knapsack()
         return self._build(cfg["ctor"], cfg["ctor"]["reward_fn"])
 
     def make_alt(self, cfg):
